@@ -29,7 +29,10 @@ RULE = ('per molecule of the C02 pool and per shipped scheme a family of '
         'inputs all evaluated; distinct by (scheme, canonical SMILES).'
         ' Quick tier: every third acyclic molecule, EVERY molecule with a '
         'ring, plus 90 sampled E/Z alkenes per stereo-bearing scheme '
-        '(thorough: all 1302). ')
+        '(thorough: all 1302). '
+        ' '
+        'Round 20: refused molecules with several unassignable atoms in'
+        ' several arrangements.')
 ASSUMPTIONS = [
     'equivalence of inputs is defined by RDKit\'s own canonical SMILES round '
     'trip',
